@@ -43,6 +43,16 @@ THEOREMS = [
     "Verif.C12.ems_distance_solves_all",
     "Verif.C12.ems_force_of_distance",
     "Verif.C12.ems_distance_of_force",
+    "Verif.C12.odijk_distance_strictMono",
+    "Verif.C12.odijk_pair_characterised",
+    "Verif.C12.ms_pair_characterised",
+    "Verif.C12.ems_distance_characterised",
+    "Verif.C12.ems_force_characterised",
+    "Verif.C12.ms_force_strictMono",
+    "Verif.C12.ms_distance_strictMono",
+    "Verif.C12.odijk_force_strictMono",
+    "Verif.C12.ems_distance_strictMono",
+    "Verif.C12.ems_force_strictMono",
     "Verif.C12.twlc_g_published",
     "Verif.C12.twlc_distance_published",
     "Verif.C12.coth_guard_error",
@@ -190,6 +200,7 @@ PARTNER = {
 }
 SOLVER_KINDS = {"efjc_force", "twlc_force"}
 CUBIC_KINDS = {"ewlc_odijk_force", "wlc_marko_siggia_distance", "ewlc_marko_siggia_force", "ewlc_marko_siggia_distance"}
+MONO_PROVED = CUBIC_KINDS | {"ewlc_odijk_distance", "wlc_marko_siggia_force"}
 INF = "inf"
 
 
@@ -1293,6 +1304,14 @@ def oracle_chain(case, ia):
     r = published_clause(kind, a, xs, got)
     if r:
         return r
+    # (1') order: the six closed-form / explicit members of the Odijk and Marko-Siggia families are strictly increasing on
+    # their domain (theorems *_strictMono), so larger inputs must not give smaller outputs (beyond the closed forms' noise)
+    if kind in MONO_PROVED:
+        pts = sorted(zip(xs, got))
+        for (x1, g1), (x2, g2) in zip(pts, pts[1:]):
+            sc = a[1] if KINDS[kind][2] == "f" else max(abs(g1), abs(g2))
+            if x2 > x1 and g2 < g1 - TOL_CLOSED * sc:
+                return f"monotone: {kind}({x1}) = {g1} > {kind}({x2}) = {g2} although the model is increasing"
     # (2) the round trip through the partner model, on the implementation's answers
     back = dec_vals(ia[1]) if len(ia) > 1 else None
     if back is None:
